@@ -164,7 +164,7 @@ def ihr_sharing(F, rep, rd):
     else:
         # the closure returns the verdict, and the adaptor it is handed to (`all`, ...) has its result decided upon
         ret = Tv.local(0)
-        if not any(c[2] == "insert" for c in calls_in(ret)):
+        if not any(c[2] == "insert" for c in calls_in(ret)) and not flow.flows_to_branch(v, cs.dest[0]):
             rep.violation("C02.must", "RedeemNode::decode:ihr-dropped", "the verdict of HashSet::insert is not the closure's result", cs.where())
             okk = False
         adaptors = []
@@ -258,7 +258,7 @@ def run(ctx, rep):
             if roots != {2}:
                 rep.violation("C02.must", "RedeemNode::decode:close-arg", "close() is applied to %s, expected the witness stream" % show(Tr.operand(cs.args[0])), cs.where())
         ihr_sharing(F, rep, rd)
-        for c in F.closures_of(rd):
+        for c in [F.inlined(c_, VOCAB) for c_ in F.closures_of(rd.inlined_from if getattr(rd, "inlined_from", None) is not None else rd)]:
             if c.path.endswith("decode::{closure#0}"):
                 req_pass(rep, c, "decode_expression", flow.wrapper_pred(F, named("decode_expression")))
                 req_pass(rep, c, "BitIter::close (program)", flow.wrapper_pred(F, lambda cs: cs.callee == CLOSE))
